@@ -8,16 +8,24 @@ warnings.simplefilter("ignore")
 import icontract  # noqa: E402
 
 
-def run_case(case):
-    events = []
+class Side:
+    """a mix-in outside the contracted hierarchy whose constructor takes the argument of the call"""
+
+
+def build(case, events, arglog, bare):
     need = dict((int(k), v) for k, v in case["need"])
     classes = []
+
+    def side_init(self, x=None):
+        arglog.append(["side", x])
+    side = type("Side", (), {"__init__": side_init})
     for i, cd in enumerate(case["chain"]):
         ns = {}
         if cd["init"] is not None:
             def make_init(i=i, script=cd["init"]):
                 def __init__(self, x=None):
                     events.append(["init", i, getattr(self, "_stage", 0)])
+                    arglog.append([i, x])
                     for a in script:
                         if a[0] == "super":
                             super(classes[i], self).__init__()
@@ -28,12 +36,14 @@ def run_case(case):
         if case.get("new_at") == i:
             def make_new(i=i):
                 def __new__(cls, x=None):
+                    arglog.append(["new", x])
                     return super(classes[i], cls).__new__(cls)
                 return __new__
             ns["__new__"] = make_new()
         base = classes[i - 1] if i else icontract.DBC
-        cls = type("L%d" % i, (base,), ns)
-        for cid in cd["invs"]:
+        bases = (base, side) if case.get("mixin_at") == i else (base,)
+        cls = type("L%d" % i, bases, ns)
+        for cid in ([] if bare else cd["invs"]):
             def make_inv(cid=cid):
                 def inv(self):
                     st = getattr(self, "_stage", 0)
@@ -43,11 +53,27 @@ def run_case(case):
                 return inv
             cls = icontract.invariant(make_inv())(cls)
         classes.append(cls)
+    return classes
+
+
+def construct(case, classes):
+    if case.get("new_at") is not None and case["new_at"] <= case["k"]:
+        return classes[case["k"]](7)
+    return classes[case["k"]]()
+
+
+def run_case(case):
+    # the same hierarchy without invariants: what the constructors receive must not depend on the contracts (C14)
+    bare_log = []
     try:
-        if case.get("new_at") is not None and case["new_at"] <= case["k"]:
-            classes[case["k"]](7)
-        else:
-            classes[case["k"]]()
+        construct(case, build(case, [], bare_log, True))
+        bare_ok = True
+    except BaseException:  # noqa: BLE001
+        bare_ok = False
+    events, arglog = [], []
+    classes = build(case, events, arglog, False)
+    try:
+        construct(case, classes)
         out = ["ok"]
     except icontract.ViolationError as err:
         import re
@@ -55,6 +81,8 @@ def run_case(case):
         out = ["violation", int(m.group(1)) if m else -1]
     except BaseException as err:  # noqa: BLE001
         out = ["other", type(err).__name__, str(err)[:200]]
+    if bare_ok and out[0] != "other" and arglog != bare_log:
+        out = ["other", "ConstructorArgumentsDiffer", "bare %r, with invariants %r" % (bare_log, arglog)]
     return {"events": events, "outcome": out}
 
 
